@@ -246,9 +246,7 @@ theorem step_local4 {sh : Sh} {t : Tid} {pc : Pc} {op : Op} {sh' : Sh} {pc' : Pc
   | wSleep g0 gg =>
     simp only [step, List.mem_append] at h
     rcases h with h | h
-    · split at h
-      · simp at h; obtain ⟨rfl, rfl⟩ := h; exact keep4 g l rfl rfl rfl rfl rfl
-      · simp at h
+    · simp at h; obtain ⟨rfl, rfl⟩ := h; exact keep4 g l rfl rfl rfl rfl rfl
     · simp at h; obtain ⟨rfl, rfl⟩ := h
       exact keep4 g l rfl rfl rfl rfl (by split <;> rfl) (hn := by intro st sn e; split at e <;> cases e)
   | wRet ok sl =>
